@@ -11,7 +11,8 @@ PROP = {
             "(protocol id, length), bad coil values, byte-count/length defects, cut streams, garbage tails, 17 handler behaviours "
             "(right/short/long/nil result, every documented error, protocol error, other error); all 256 function codes x payload "
             "lengths (stratified in quick, complete 0..253 in thorough). Observables: handler invocations with all decoded fields, "
-            "every response frame, close.",
+            "every response frame, close."
+            " Scenario errmap: the complete table of handler errors (every exported error of the package, wrapped, foreign and look-alike errors) through mapErrorToExceptionCode against the model's herr_code.",
     "assumptions": [],
 }
 CLAIM = {
